@@ -171,3 +171,78 @@ def c17(tier):
 
 
 REGISTRY["C17"] = c17
+
+
+# ---------------------------------------------------------------------------------------------
+# C18: timing and hardware-access statements are emitted exactly
+# ---------------------------------------------------------------------------------------------
+def sleep_body(n, ctx, with_sleep):
+    sl = [dict(k="csleep", n=n)] if with_sleep else [dict(k="nop")]
+    V, N = vocab.V, vocab.N
+    asg = lambda d, e: dict(k="expr", e=dict(k="asg", op="=", lhs=V(d), e=e))
+    if ctx == "alone":
+        return sl
+    if ctx == "between":
+        return [asg("a", V("b"))] + sl + [asg("c", V("a"))]
+    if ctx == "afterload":
+        return [dict(k="load", e=V("a"))] + sl + [dict(k="store", e=V("b"))]
+    if ctx == "loop":
+        return [dict(k="for", init=dict(k="asg", op="=", lhs=V("X"), e=N(0)), c=dict(k="bin", op="<", l=V("X"), r=N(3)),
+                     upd=dict(k="inc", pre=False, d=1, lhs=V("X")), b=sl + [dict(k="expr", e=dict(k="inc", pre=False, d=1, lhs=V("c")))])]
+    raise ValueError(ctx)
+
+
+def c18(tier):
+    t0 = time.time()
+    pid = "C18"
+    verdict = common.Verdict(pid)
+    allp = refine.gen_programs(["FX", "FS"], "c18", which="FX")
+    fx = [p for p in allp if p["fam"] == "FX"]
+    fs = [p for p in allp if p["fam"] == "FS"]
+    total = len(fx)
+    if tier == "quick":
+        rnd = random.Random(common.seed())
+        two = [p for p in fx if len(p["body"]) == 2 and p["body"][0]["k"] != "for"]
+        rest = [p for p in fx if not (len(p["body"]) == 2 and p["body"][0]["k"] != "for")]
+        fx = two + rnd.sample(rest, min(len(rest), 1400))
+    cases, bodies = [], {}
+    io_names = ("PORT1", "PORT2", "PORT3")
+    for i, p in enumerate(fx):
+        src = vocab.source(p["body"], [], ports=True)
+        cid = "FX-%05d" % i
+        cases.append(dict(id=cid, fam="FX", body=p["body"], fnames=[], io_names=io_names, extra_decl=vocab.PORT_DECLS,
+                          variants=[dict(name=l, args=[l], src=src) for l in ("-O0", "-O1", "-O2")]))
+        bodies[cid] = p["body"]
+    for p in fs:
+        a, b = sleep_body(p["n"], p["ctx"], True), sleep_body(p["n"], p["ctx"], False)
+        for lvl in ("-O0", "-O1"):
+            cid = "FS-%s-%d%s" % (p["ctx"], p["n"], lvl)
+            cases.append(dict(id=cid, fam="FS", body=None, in_body=a, fnames=[], io_names=io_names, extra_decl=vocab.PORT_DECLS,
+                              # cycle-exactness is measured where the optimiser treats both programs alike (a NOP between STA a / LDA a
+                              # legitimately keeps a load that is removed without it)
+                              cycdiff=(p["n"] if p["ctx"] != "loop" and not (p["ctx"] == "between" and lvl != "-O0") else -1), small=True,
+                              variants=[dict(name="sleep", args=[lvl], src=vocab.source(a, [], ports=True)), dict(name="nosleep", args=[lvl], src=vocab.source(b, [], ports=True))]))
+            bodies[cid] = a
+    pl = refine.Pipeline("c18", flavour="atari2600", tier=tier)
+    pl.run(cases, sem=True, pair=True, maxin=6 if tier == "quick" else 16)
+    sm = dict(checks_refine.finding_signatures(pid))
+    triggers = [(re.compile(f["sig_regex"]), f["id"]) for f in verdict.findings if f.get("sig_regex")]
+
+    def key(cid, sg):
+        if sg in sm:
+            return sg
+        for rx, fid in triggers:
+            if rx.search(sg):
+                sm[sg] = fid
+                return sg
+        return sg
+    nbad = checks_refine.judge(pl, verdict, pid, sm, bodies, extra_key=key)
+    sleeps = sorted(set((c["id"], "accepted" if c["id"] in pl.tcases else "refused") for c in cases if c["fam"] == "FS"))
+    evidence_pair(pid, tier, pl, verdict, nbad, t0, "FX: sequences of load/store/strobe/asm/csleep and ordinary statements (also inside if and for) compiled at -O0/-O1/-O2: the io log of the "
+                  "6502 model (accesses to the port cells, in order, with values) must equal the explicit accesses CSem prescribes, at every level, and all levels must agree. "
+                  "FS: csleep(n), n = 0..12, alone / between assignments / between load and store / in a loop, against the same program without it: cycle difference exactly n "
+                  "(Enc6502 cycle table), identical final state.", dict(fx_generated=total, csleep_cases=len(fs), csleep_accepted=sum(1 for s in sleeps if s[1] == "accepted")))
+    return verdict.finish()
+
+
+REGISTRY["C18"] = c18
